@@ -387,6 +387,12 @@ pub struct Ctl {
     pub gc_production: u64,
     /// unwind out of the VM as soon as an audit finds a corrupted heap (I1/I3/I4)
     pub poisoned: bool,
+    /// cells scanned by audits so far, and the budget after which the scheduler stops forcing
+    /// collections (the run itself goes on to its instruction cap): a run that a defect has turned
+    /// into an endless loop must not be audited a million times. Deterministic: no clock involved.
+    pub audit_work: u64,
+    pub audit_work_budget: u64,
+    pub audit_budget_exhausted: bool,
 }
 
 #[derive(Clone, Debug, Default)]
@@ -529,6 +535,9 @@ impl Ctl {
             seen_collections: 0,
             gc_production: 0,
             poisoned: false,
+            audit_work: 0,
+            audit_work_budget: 1_500_000_000,
+            audit_budget_exhausted: false,
         }
     }
 
@@ -536,6 +545,7 @@ impl Ctl {
     fn audit_now(&mut self, vm: &Vm) {
         self.audit_count += 1;
         let report = audit(vm);
+        self.audit_work += report.capacity as u64;
         if report.live_continuations > 0 {
             self.probes.gc_with_live_continuation += 1;
         }
@@ -602,6 +612,7 @@ impl Ctl {
     pub fn forced_collect(&mut self, vm: &mut Vm, next_op: u8) {
         let cap_before = vm.verif_heap().capacity();
         vm.verif_collect();
+        self.audit_work += (cap_before / 4) as u64;
         self.gc_forced += 1;
         self.fired.push((self.form, self.boundary));
         if vm.verif_state().last_freed > 0 {
@@ -660,7 +671,11 @@ impl Ctl {
                 }
             }
         } else if self.want_gc(next_op) {
-            self.forced_collect(vm, next_op);
+            if self.audit_work > self.audit_work_budget {
+                self.audit_budget_exhausted = true;
+            } else {
+                self.forced_collect(vm, next_op);
+            }
         }
         if self.poisoned {
             panic!("verif: heap audit found a corrupted heap; run stopped");
